@@ -52,7 +52,8 @@ PROPS = {
     "C14": e2e(
         "each run = one seeded client program over {Send, CloseRequest, Receive, CloseResponse, cancel} (split sender/receiver tasks for bidi) "
         "against a seeded handler program {receive i, send j, drain or not, return nil|error} x protocols x HTTP versions x windows down to 1 byte "
-        "x slow-point sets at the library's 17 yield points (none, every single point, every pair, random subsets); checked: bounded termination "
+        "x slow-point sets at the library's 17 yield points (none, every single point, every pair, random subsets), plus calls refused by a handler-side "
+        "interceptor before the request is read (Sends still blocked); checked: bounded termination "
         "(hang = no enabled operation for 120 s of fake time), end-of-request visibility, Send-after-finish errors, outcome equality, sticky Receive "
         "errors, goroutine leaks (stack scan of the bubble) and response-body Close; distinct = distinct scheduler-log hash among runs with >= 2 candidates",
         16000, 300000),
@@ -60,6 +61,8 @@ PROPS = {
         "each run = one seeded call with exactly one of: a canceller task (its release step is the cancellation instant, so every instant between two "
         "scheduling steps is reachable), a cancel operation between two program operations (incl. before the call), a deadline on the fake clock "
         "(1 us .. 30 ms against handler sleeps), or a handler that returns a context error of its own; handlers sleep / wait for their context; "
+        "a quarter of the canceller / deadline runs give the client a 64-byte read limit that response messages exceed (competing failure cause: an operation "
+        "in flight at the instant may report the limit only if it had consumed the whole offending envelope); "
         "checked by step number / fake time: operations started after the instant fail with canceled / deadline_exceeded (Send may return io.EOF), "
         "final outcome never success; distinct = distinct scheduler-log hash among runs with >= 2 candidates",
         16000, 300000),
@@ -144,7 +147,8 @@ PROPS = {
         "payloads, headers and trailers, of mixed protocols, codecs, compressions, kinds and sizes, over ONE handler set and 1-3 shared clients; "
         "deterministic build: schedule decided at every transport operation and library yield point, poisoned LIFO/FIFO pools, custom (de)compressors "
         "that park mid-operation, detection of double Put; oracle: each call's result == its solo expectation, no foreign tag anywhere, values "
-        "handed to user code still equal their at-receipt copies at the end of the run; -race build of the same world with happens-before-free "
+        "handed to user code still equal their at-receipt copies at the end of the run; in half of the runs the HTTPClient edits request.URL in place "
+        "(per-call query parameter) and the URL handed to Do must be pristine; -race build of the same world with happens-before-free "
         "gates (also over the C14, C15 and C08 worlds: sender / receiver / request goroutine of one call, shared compressor pools): a race report whose "
         "racing accesses are inside connect-go is a violation; distinct = distinct scheduler-log hash",
         6000, 100000, race=True, race_also=["C14", "C15", "C08"], quick_extra={"race_runs": 600}, thorough_extra={"race_runs": 20000}),
